@@ -39,11 +39,52 @@ Definition overlap (a b : op) : option (N * N * N) :=
   | _, _ => None
   end.
 
+(* what q's call wrote and published: the result datagram to q answering counter ctr and the
+   subscription / binding events of connection q.  The observations of an overlap are split by
+   this predicate; the teardown of p <> q produces none of them. *)
+Definition of_call (q ctr : N) (o : obs) : bool :=
+  match o with
+  | OResult p' ref _ _ _ => N.eqb p' q && N.eqb ref ctr
+  | OEvent EvSub _ ski _ _ _ | OEvent EvBind _ ski _ _ _ => N.eqb ski q
+  | _ => false
+  end.
+
+(* A second kind of overlap: the notification round of a local data change [a] = SetData ... is
+   busy writing to an earlier subscriber when the connection of peer p is removed, [b] = Disconnect p.
+   DeviceLocal.NotifySubscribers works on the list it took before its first write, so every
+   subscriber of that list is written to - also p, whose connection object still exists - and the
+   teardown of p runs to its end meanwhile: "the change, then the disconnect".  (What is written to
+   p itself during such a round is not prescribed; the harness reports it in the canonical form
+   "one notification per registry entry of p", see harness/stack.) *)
+Definition round_overlap (a b : op) : option N :=
+  match a, b with
+  | SetData _ _ _ _, Disconnect p => Some p
+  | _, _ => None
+  end.
+
+(* an observation about peer p: an event of connection p or a result written to p *)
+Definition from_peer (p : N) (o : obs) : bool :=
+  match o with
+  | OEvent _ _ ski _ _ _ => N.eqb ski p
+  | OResult p' _ _ _ _ => N.eqb p' p
+  | _ => false
+  end.
+
+(* the observations of the second operation of an overlap are recognised by this predicate *)
+Definition xsplit (a b : op) : option (obs -> bool) :=
+  match overlap a b with
+  | Some (_, q, ctr) => Some (fun o => of_call q ctr o)
+  | None => match round_overlap a b with
+            | Some p => Some (from_peer p)
+            | None => None
+            end
+  end.
+
 Definition xstep (s : st) (o : xop) : st * list obs :=
   match o with
   | Base o' => step s o'
   | During a b =>
-      match overlap a b with
+      match xsplit a b with
       | Some _ =>
           let '(s1, o1) := step s a in
           let '(s2, o2) := step s1 b in
@@ -59,16 +100,6 @@ Fixpoint xrun (s : st) (ops : list xop) : st * list (xop * list obs) :=
       let '(s1, out) := xstep s o in
       let '(s2, tr) := xrun s1 r in
       (s2, (o, out) :: tr)
-  end.
-
-(* what q's call wrote and published: the result datagram to q answering counter ctr and the
-   subscription / binding events of connection q.  The observations of an overlap are split by
-   this predicate; the teardown of p <> q produces none of them. *)
-Definition of_call (q ctr : N) (o : obs) : bool :=
-  match o with
-  | OResult p' ref _ _ _ => N.eqb p' q && N.eqb ref ctr
-  | OEvent EvSub _ ski _ _ _ | OEvent EvBind _ ski _ _ _ => N.eqb ski q
-  | _ => false
   end.
 
 (* wire: [22; n; <n integers: the teardown operation>; <the call operation>] *)
